@@ -56,6 +56,11 @@ _sp = _site_packages()
 if _sp and _sp not in sys.path:
     sys.path.append(_sp)
 sys.modules["mpi4py"] = None          # C20 does not speak about MPI; _common is built without HAVE_MPI
+try:                                  # only needed by the cmake/make builder of dune-py, which is replaced below
+    import jinja2  # noqa: F401
+except ImportError:
+    import types as _types
+    sys.modules["jinja2"] = _types.ModuleType("jinja2")
 os.environ.setdefault("DUNE_LOG_LEVEL", "error")
 
 import hashlib   # noqa: E402
@@ -276,7 +281,8 @@ class DirectBuilder:
 
 
 BUILDER = DirectBuilder()
-FV_SIZES = [1, 2, 3, 4, 6]
+FV_SIZES_ALL = [1, 2, 3, 4, 5, 6, 9]      # every size is built (JIT) in both tiers; Driver/C20.lean knows the same list
+FV_SIZES = [1, 2, 3, 4, 6]                # sizes the quick generator draws from; thorough draws from all
 TUP_SHAPES = [("d,F2,d,F3", "val"), ("d,F2,d,F3", "ref"), ("F3,F2", "val"), ("i,d", "val"), ("F2,i,F2", "ref")]
 
 NPV_CODE = r"""
@@ -308,7 +314,7 @@ double c20npv ( pybind11::array_t< double > &a, int op, double k, int i, pybind1
 STATE = types.SimpleNamespace(np=None, dc=None, FV={}, npv=None)
 
 
-def prepare(need_sizes=FV_SIZES, need_shapes=TUP_SHAPES):
+def prepare(need_sizes=FV_SIZES_ALL, need_shapes=TUP_SHAPES):
     """build everything, import the package, return"""
     t0 = time.time()
     stage_a()
@@ -1683,7 +1689,7 @@ def execute(line):
         if bad:
             return impl, "FAIL " + bad
         return impl, ("ok trivial" if ex.trivial else "ok")
-    except ValueError as ve:
+    except (ValueError, IndexError) as ve:
         return "bad-op", "ok trivial (unparsable: %s)" % ve
 
 
@@ -1695,7 +1701,8 @@ class Rng:
     M = (1 << 64) - 1
 
     def __init__(self, seed):
-        self.s = (seed * 0x9E3779B97F4A7C15 + 0x1234567) & self.M
+        # NB: not the increment of next() as multiplier, otherwise seed+1 yields the same stream shifted by one draw
+        self.s = (seed * 0xD1342543DE82EF95 + 0x1234567) & self.M
 
     def next(self):
         self.s = (self.s + 0x9E3779B97F4A7C15) & self.M
@@ -1773,13 +1780,20 @@ def gen_program(r, idx, tier):
         slots = shape_slots(shape)
         width = sum(slot_width(s) for s in slots)
         segs = ["%s t0 %s" % (r.pick(["tnew", "tnewa"]), fmt_list([gen_val(r) for _ in range(width)]))]
+        bt = {0}
         while len(segs) < nseg:
             t = "t%d" % r.weighted([(0, 3), (1, 2)])
             u = "t%d" % r.weighted([(0, 3), (1, 2)])
+            if int(u[1]) not in bt and not r.coin(1, 10):
+                u = "t%d" % r.pick(sorted(bt))
             i = r.weighted([(r.below(len(slots)), 8), (len(slots), 1), (len(slots) + 1, 1)])
             w = slot_width(slots[i]) if i < len(slots) else 2
             op = r.weighted([("tnew", 2), ("tnewa", 1), ("tlen", 1), ("tget", 4), ("tlist", 1), ("tsetd", 3), ("tseti", 3),
                              ("tsetf", 3), ("tsetel", 4), ("srcset", 4), ("tcopy", 3), ("tassign", 2)])
+            if op not in ("tnew", "tnewa", "tcopy") and int(t[1]) not in bt and not r.coin(1, 10):
+                t = "t%d" % r.pick(sorted(bt))
+            if op in ("tnew", "tnewa", "tcopy"):
+                bt.add(int(t[1]))
             stat("op_" + op)
             if op in ("tnew", "tnewa"):
                 segs.append("%s %s %s" % (op, t, fmt_list([gen_val(r) for _ in range(width)])))
@@ -1799,16 +1813,29 @@ def gen_program(r, idx, tier):
         stat("kind_tup_" + shape + "_" + ref)
         return "tup %s %s : %s" % (shape, ref, ";".join(segs))
 
-    n = r.pick(FV_SIZES) if kind == "fv" else r.weighted([(3, 4), (1, 1), (2, 2), (5, 2), (0, 1)])
+    n = (r.pick(FV_SIZES_ALL if tier == "thorough" else FV_SIZES) if kind == "fv"
+         else r.weighted([(3, 4), (1, 1), (2, 2), (5, 2), (0, 1)]))
     stat("kind_%s_n%d" % (kind, n))
     ctor_kinds = (["list", "tuple", "args", "np", "nps2", "nps3", "npsm1", "npsm2", "buf", "zero", "fac"]
                   if kind == "fv" else ["list", "list", "zero"])
 
-    def xr():
-        return "x%d" % r.weighted([(0, 4), (1, 3), (2, 2), (3, 1)])
+    bx, ba = set(), set()       # registers that are (probably) bound so far
 
-    def ar():
-        return "a%d" % r.weighted([(0, 3), (1, 2), (2, 1)])
+    def xr(target=False):
+        k = r.weighted([(0, 4), (1, 3), (2, 2), (3, 1)])
+        if target:
+            bx.add(k)
+        elif bx and k not in bx and not r.coin(1, 12):
+            k = r.pick(sorted(bx))
+        return "x%d" % k
+
+    def ar(target=False):
+        k = r.weighted([(0, 3), (1, 2), (2, 1)])
+        if target:
+            ba.add(k)
+        elif ba and k not in ba and not r.coin(1, 12):
+            k = r.pick(sorted(ba))
+        return "a%d" % k
 
     def ctor(x):
         how = r.pick(ctor_kinds)
@@ -1816,9 +1843,9 @@ def gen_program(r, idx, tier):
         if how == "zero":
             return "new %s zero" % x
         return "new %s %s %s" % (x, how, gen_list(r, n, exact=(how == "fac" or (kind == "dyn" and r.coin(3, 4)))))
-    segs = [ctor("x0")]
+    segs = [ctor(xr(True))]
     if r.coin(2, 3):
-        segs.append(ctor("x1"))
+        segs.append(ctor(xr(True)))
     ops = [("new", 6), ("copy", 3), ("mcopy", 3), ("alias", 3), ("add", 3), ("sub", 3), ("addl", 2), ("subl", 2),
            ("raddl", 2), ("rsubl", 3), ("mul", 2), ("rmul", 2), ("div", 2), ("neg", 2), ("addi", 2), ("subi", 2),
            ("raddi", 2), ("rsubi", 3), ("iadd", 3), ("isub", 3), ("iaddl", 2), ("isubl", 2), ("iadds", 2), ("isubs", 2),
@@ -1828,27 +1855,40 @@ def gen_program(r, idx, tier):
            ("nget", 2), ("nnorms", 2), ("naxpy", 3), ("nrun", 2)]
     while len(segs) < nseg:
         op = r.weighted(ops)
+        if op in ("aget", "aset", "alist", "nscale", "nset", "nget", "nnorms", "naxpy", "nrun") and not ba:
+            op = r.pick(["view", "sl", "npcopy"]) if kind == "fv" else "npcopy"
         stat("op_" + op)
         if op == "new":
-            segs.append(ctor(xr()))
-        elif op in ("copy", "mcopy", "alias", "assign", "iadd", "isub", "eq", "ne", "dot"):
+            segs.append(ctor(xr(True)))
+        elif op in ("copy", "mcopy", "alias"):
+            y = xr()
+            segs.append("%s %s %s" % (op, xr(True), y))
+        elif op in ("assign", "iadd", "isub", "eq", "ne", "dot"):
             segs.append("%s %s %s" % (op, xr(), xr()))
         elif op in ("add", "sub"):
-            segs.append("%s %s %s %s" % (op, xr(), xr(), xr()))
+            y, z = xr(), xr()
+            segs.append("%s %s %s %s" % (op, xr(True), y, z))
         elif op in ("addl", "subl"):
-            segs.append("%s %s %s %s" % (op, xr(), xr(), gen_list(r, n, kind == "dyn" and r.coin(4, 5))))
+            y = xr()
+            segs.append("%s %s %s %s" % (op, xr(True), y, gen_list(r, n, kind == "dyn" and r.coin(4, 5))))
         elif op in ("raddl", "rsubl"):
-            segs.append("%s %s %s %s" % (op, xr(), gen_list(r, n, kind == "dyn" and r.coin(4, 5)), xr()))
+            y = xr()
+            segs.append("%s %s %s %s" % (op, xr(True), gen_list(r, n, kind == "dyn" and r.coin(4, 5)), y))
         elif op in ("mul", "div"):
-            segs.append("%s %s %s %d" % (op, xr(), xr(), gen_scalar(r)))
+            y = xr()
+            segs.append("%s %s %s %d" % (op, xr(True), y, gen_scalar(r)))
         elif op == "rmul":
-            segs.append("rmul %s %d %s" % (xr(), gen_scalar(r), xr()))
+            y = xr()
+            segs.append("rmul %s %d %s" % (xr(True), gen_scalar(r), y))
         elif op == "neg":
-            segs.append("neg %s %s" % (xr(), xr()))
+            y = xr()
+            segs.append("neg %s %s" % (xr(True), y))
         elif op in ("addi", "subi"):
-            segs.append("%s %s %s %d" % (op, xr(), xr(), r.weighted([(0, 3), (gen_scalar(r), 2)])))
+            y = xr()
+            segs.append("%s %s %s %d" % (op, xr(True), y, r.weighted([(0, 3), (gen_scalar(r), 2)])))
         elif op in ("raddi", "rsubi"):
-            segs.append("%s %s %d %s" % (op, xr(), r.weighted([(0, 3), (gen_scalar(r), 2)]), xr()))
+            y = xr()
+            segs.append("%s %s %d %s" % (op, xr(True), r.weighted([(0, 3), (gen_scalar(r), 2)]), y))
         elif op in ("iaddl", "isubl", "eql", "nel", "dotl"):
             segs.append("%s %s %s" % (op, xr(), gen_list(r, n, kind == "dyn" and r.coin(4, 5))))
         elif op in ("iadds", "isubs", "imuls", "idivs"):
@@ -1863,9 +1903,9 @@ def gen_program(r, idx, tier):
             segs.append("slice %s %s %s %s" % (xr(), gen_slice_idx(r, n), gen_slice_idx(r, n),
                                                r.pick(["_", "1", "2", "-1", "-2", "3", "-3"])))
         elif op in ("view", "npcopy"):
-            segs.append("%s %s %s" % (op, ar(), xr()))
+            segs.append("%s %s %s" % (op, ar(True), xr()))
         elif op == "sl":
-            segs.append("sl %s %s %s %s %s" % (ar(), xr(), gen_slice_idx(r, n), gen_slice_idx(r, n),
+            segs.append("sl %s %s %s %s %s" % (ar(True), xr(), gen_slice_idx(r, n), gen_slice_idx(r, n),
                                                r.pick(["_", "1", "2", "-1", "-2", "3"])))
         elif op == "aget":
             segs.append("aget %s %d" % (ar(), gen_index(r, n)))
@@ -1899,6 +1939,13 @@ def main(argv):
         else:
             i += 1
     out = a["out"]
+    # tuplevector.hh reports rejected assignments on std::cerr; keep that chatter out of the crash log
+    try:
+        efd = os.open(out + ".stderr", os.O_WRONLY | os.O_CREAT | os.O_TRUNC, 0o644)
+        os.dup2(efd, 2)
+        os.close(efd)
+    except OSError:
+        pass
     fimpl = open(out + ".impl", "w")
     forac = open(out + ".oracle", "w")
     try:
